@@ -411,4 +411,150 @@ theorem shape_group_survives (hs : Shape sub now visit latestRes failing o r) (h
 end
 
 
+open Restic.Props.C22
+
+/-! ## only tag-only policies can hit the guard -/
+
+theorem bucket_hits (l : List PSnap) (hl : l ≠ []) (b : Bucket) (hact : b.count > 0 ∨ b.count = -1) (nr : Nat) :
+    ∃ pre s rest, l = pre ++ s :: rest ∧
+      (stepBucket (bucketAfter b nr pre) s.civ (nr + pre.length) rest.isEmpty).2.isSome = true := by
+  induction l generalizing nr with
+  | nil => exact absurd rfl hl
+  | cons s t ih =>
+    cases t with
+    | nil =>
+      refine ⟨[], s, [], rfl, ?_⟩
+      simp [bucketAfter, stepBucket_hit, hact]
+    | cons s' t' =>
+      by_cases hh : (stepBucket b s.civ nr false).2.isSome = true
+      · exact ⟨[], s, s' :: t', rfl, by simpa [bucketAfter] using hh⟩
+      · have hb : (stepBucket b s.civ nr false).1 = b := by
+          rw [stepBucket_hit] at hh
+          have hkey : bucketKey b.kind s.civ nr = b.last := by
+            simpa [hact] using hh
+          simp [stepBucket, hact, hkey]
+        obtain ⟨pre, x, rest, hsplit, hhit⟩ := ih (by simp) (nr + 1)
+        refine ⟨s :: pre, x, rest, by simp [hsplit], ?_⟩
+        simp only [bucketAfter, hb, List.length_cons]
+        have : nr + (pre.length + 1) = nr + 1 + pre.length := by omega
+        rw [this]; exact hhit
+
+/-- **keep_nonempty_of_count**: a policy with any count rule (n > 0 or unlimited) keeps at least one
+    snapshot of every non-empty list — so only policies made of keep-tag / keep-within rules can
+    run into the "refusing to delete last snapshot" guard -/
+theorem keep_nonempty_of_count (sub : Int → Dur → Int) (now : Int) (l : List PSnap) (p : Policy)
+    (ds : List Decision) (h : applyPolicy sub now l p = .ok ds) (hl : l ≠ [])
+    (k : Kind) (hk : p.countOf k > 0 ∨ p.countOf k = -1) : keepOf ds ≠ [] := by
+  have hsne : sortNewestFirst l ≠ [] := by
+    intro e
+    have := (sort_perm l).length_eq
+    rw [e] at this
+    cases l with
+    | nil => exact hl rfl
+    | cons a b => simp at this
+  obtain ⟨pre, s, rest, hsplit, hhit⟩ := bucket_hits (sortNewestFirst l) hsne ⟨k, p.countOf k, -1⟩ hk 0
+  rw [applyPolicy_eq] at h
+  injection h with h
+  have hfl := loop_flags ⟨sub, latestOf now l, p⟩ (sortNewestFirst l) [] ⟨initBuckets p, initWBuckets p⟩
+    (by simp [bucketAfter]) (by simp [wbucketAfter])
+  simp only [List.length_nil] at hfl
+  have hkept : keptState ⟨sub, latestOf now l, p⟩ pre s rest.isEmpty = true := by
+    simp only [keptState, Bool.or_eq_true]
+    left; right
+    simp only [List.any_eq_true]
+    refine ⟨⟨k, p.countOf k, -1⟩, ?_, by simpa using hhit⟩
+    simp only [initBuckets, List.mem_map]
+    exact ⟨k, by cases k <;> simp [countKinds], rfl⟩
+  have hmem : s ∈ keepOf ds := by
+    rw [keepOf_eq, ← h, loop_snaps, hfl, kept_at]
+    exact ⟨pre, rest, hsplit, by simpa using hkept⟩
+  intro e; rw [e] at hmem; cases hmem
+
+/-! ## the property, stated for `runForget` -/
+
+section
+variable (sub : Int → Dur → Int) (now : Int) (visit : List PSnap) (latestRes : Option Snap)
+  (failing : List Nat) (o : Opts)
+
+/-- **dryrun_no_remove** -/
+theorem dryrun_no_remove (h : o.dryRun = true) : (runForget sub now visit latestRes failing o).removed = [] :=
+  shape_dry (runForget_shape sub now visit latestRes failing o) h
+
+/-- **abort_no_remove**: a run that fails for any reason other than a failing backend removal
+    (option errors, unknown or malformed ids, "refusing to delete last snapshot") removes nothing -/
+theorem abort_no_remove (h : (runForget sub now visit latestRes failing o).outcome ≠ .ok)
+    (h' : (runForget sub now visit latestRes failing o).outcome ≠ .error "remove-failed") :
+    (runForget sub now visit latestRes failing o).removed = [] :=
+  (shape_abort (runForget_shape sub now visit latestRes failing o) h h').1
+
+/-- **removed_eq_reported** (policy mode): every deleted snapshot is reported as removed by some
+    group; after a successful run without `--dry-run` the deleted snapshots are exactly the reported ones -/
+theorem removed_eq_reported (hargs : o.args = []) (n : Nat) :
+    (n ∈ (runForget sub now visit latestRes failing o).removed →
+      ∃ g ∈ (runForget sub now visit latestRes failing o).groups, n ∈ g.remove) ∧
+    ((runForget sub now visit latestRes failing o).outcome = .ok → o.dryRun = false →
+      (n ∈ (runForget sub now visit latestRes failing o).removed ↔
+        ∃ g ∈ (runForget sub now visit latestRes failing o).groups, n ∈ g.remove)) := by
+  have hs := runForget_shape sub now visit latestRes failing o
+  have h1 := shape_removed hs
+  have h2 := shape_reported hs hargs n
+  refine ⟨fun hn => h2.mp (h1.1 n hn), fun hok hd => ?_⟩
+  rw [h1.2 hok hd]; exact h2
+
+/-- **removed = named** (explicit ids): only named snapshots (or the resolved `latest`) are
+    deleted, and after a successful run without `--dry-run` every named snapshot is deleted -/
+theorem ids_removed_named (hargs : o.args ≠ []) (n : Nat) :
+    (n ∈ (runForget sub now visit latestRes failing o).removed →
+      Arg.id n false ∈ o.args ∨ (Arg.latest ∈ o.args ∧ ∃ s, latestRes = some s ∧ s.id = n)) ∧
+    ((runForget sub now visit latestRes failing o).outcome = .ok → o.dryRun = false →
+      Arg.id n false ∈ o.args → n ∈ (runForget sub now visit latestRes failing o).removed) := by
+  have hs := runForget_shape sub now visit latestRes failing o
+  have h1 := shape_removed hs
+  have h2 := shape_ids hs hargs n
+  refine ⟨fun hn => h2.1 (h1.1 n hn), fun hok hd hn => ?_⟩
+  rw [h1.2 hok hd]; exact h2.2 (Or.inl hok) hn
+
+/-- **no_group_emptied** (as reported): with a non-empty policy every reported group keeps a snapshot -/
+theorem no_group_emptied (hargs : o.args = []) (hp : o.policy.empty = false) :
+    ∀ g ∈ (runForget sub now visit latestRes failing o).groups, g.keep ≠ [] :=
+  shape_keep_nonempty (runForget_shape sub now visit latestRes failing o) hargs hp
+
+/-- **no_group_emptied** (in the repository): with a non-empty policy, every group of the selected
+    snapshots retains at least one snapshot, whatever the outcome of the run -/
+theorem group_survives (hargs : o.args = []) (hp : o.policy.empty = false)
+    (hids : (visit.map (·.sn.id)).Nodup) :
+    ∀ g ∈ groupP o.groupBy (visit.filter fun s => o.filter.matches s.sn),
+      ∃ s ∈ g.2, s.sn.id ∉ (runForget sub now visit latestRes failing o).removed :=
+  shape_group_survives (runForget_shape sub now visit latestRes failing o) hargs hp hids
+
+/-- **empty_policy_guard**: an empty policy removes nothing, and the run fails, unless
+    `--unsafe-allow-remove-all` is combined with a snapshot filter -/
+theorem empty_policy_guard (hargs : o.args = []) (hp : o.policy.empty = true)
+    (hu : ¬ (o.unsafeAllowRemoveAll = true ∧ o.filter.empty = false)) :
+    (runForget sub now visit latestRes failing o).removed = [] ∧
+    (runForget sub now visit latestRes failing o).outcome ≠ .ok :=
+  shape_empty_policy (runForget_shape sub now visit latestRes failing o) hargs hp hu
+
+end
+
+/-! ## non-vacuity -/
+
+def mk (id : Nat) (t : Int) (host : String) (d : Int) : PSnap :=
+  ⟨⟨id, t, host, ["/p"], []⟩, ⟨2024, 5, d, 8, 2024, 19⟩⟩
+def exRepo : List PSnap := [mk 0 100 "h1" 10, mk 1 200 "h1" 11, mk 2 300 "h2" 12, mk 3 400 "h1" 13]
+def exOpts (dry : Bool) (p : Policy) : Opts :=
+  { policy := p, unsafeAllowRemoveAll := false, dryRun := dry, noLock := false,
+    filter := ⟨[], [], [], none⟩, groupBy := ⟨false, true, true⟩, args := [] }
+
+/-- keep-last 1 with two host groups: both groups survive, three snapshots… two are removed; the
+    same with `--dry-run` removes nothing; a keep-tag policy that matches nothing is refused -/
+example :
+    (runForget (fun t _ => t) 1000 exRepo none [] (exOpts false (onlyLast 1))).removed = [1, 0] ∧
+    (runForget (fun t _ => t) 1000 exRepo none [] (exOpts false (onlyLast 1))).groups = [⟨[3], [1, 0]⟩, ⟨[2], []⟩] ∧
+    (runForget (fun t _ => t) 1000 exRepo none [] (exOpts true (onlyLast 1))).removed = [] ∧
+    (runForget (fun t _ => t) 1000 exRepo none [] (exOpts false { onlyLast 0 with tags := [["zz"]] })).outcome = .error "refuse" ∧
+    (runForget (fun t _ => t) 1000 exRepo none [] (exOpts false (onlyLast 0))).outcome = .fatal "no-policy" := by
+  decide
+
+
 end Restic.Props.C23
